@@ -15,6 +15,9 @@ CHECKS = {
  "C02": ("exploration", "runtime monitoring: byte-level scan of produced binaries against generated marker sets + metadata probes",
   "Every identifier, file, directory, package and module name of the generated programs is a unique random marker; the obfuscated binary is searched for each must-hide marker, the source/TMPDIR paths and the Go version; go version -m, go tool buildid and the ELF section table are probed. A marker only counts when the regular stripped binary of the same program contains it.",
   "Sensitivity is proven per marker against the regular stripped build; exceptions (exported methods, reflection, non-GOGARBLE packages) are not asserted present."),
+ "C04": ("exploration", "runtime monitoring: traces of executed obfuscated programs piped through garble reverse, frame-by-frame comparison with the -trimpath build's trace",
+  "Generated call-chain programs (9 frame kinds, 3 packages, panic / PrintStack / runtime.Callers terminals) are run as regular -trimpath and as obfuscated builds; the obfuscated stderr, embedded in surrounding text with LF/CRLF/no-final-newline variants, goes through `garble reverse` and every program frame (function and call-site position) must equal the regular trace; text without obfuscated tokens must pass through unchanged with exit status 1.",
+  "pc offsets, goroutine ids and argument words are normalised; runtime frames are not compared; goroutine creation sites and closure indices under -literals are listed known findings."),
  "C05": ("exploration", "runtime monitoring: in-process application of the tree's literal obfuscator to generated programs + execution of the result; end-to-end differential through garble -literals",
   "Generated import-free programs with ~120 literals each (all forms, 16 positions, boundary lengths, 5 byte classes) are rewritten by the tree's literals.Obfuscate with each of the 5 obfuscators forced and with random choice over several PRNG seeds, compiled and run; every printed value is compared with the source bytes. The same programs plus -ldflags=-X targets go through garble -literals and are compared with the regular build.",
   "Literal contexts come from a fixed grammar; a hook reports which literals were actually rewritten and by which obfuscator."),
